@@ -37,6 +37,23 @@ B2 == <<"true", "false">>
 Opts == <<
   [k |-> "layout.partitions", vs |-> <<"1", "2", "3", "4">>],
   [k |-> "layout.batch_rows", vs |-> <<"0", "1", "2">>],
+  [k |-> "layout.source", vs |-> <<"mem", "parquet", "csv", "parquet">>],   \* MemTable / listing table over files written per case
+  [k |-> "layout.sorted", vs |-> <<"false", "true">>],                      \* rows sorted on the first column, order declared to the engine
+  [k |-> "datafusion.optimizer.repartition_file_scans", vs |-> B2],
+  [k |-> "datafusion.optimizer.repartition_file_min_size", vs |-> <<"1048576", "0", "1">>],
+  [k |-> "datafusion.optimizer.preserve_file_partitions", vs |-> <<"0", "1">>],
+  [k |-> "datafusion.execution.split_file_groups_by_statistics", vs |-> <<"false", "true">>],
+  [k |-> "datafusion.execution.enable_file_stream_work_stealing", vs |-> B2],
+  [k |-> "datafusion.execution.meta_fetch_concurrency", vs |-> <<"32", "1">>],
+  [k |-> "datafusion.execution.parquet.pushdown_filters", vs |-> <<"false", "true">>],
+  [k |-> "datafusion.execution.parquet.reorder_filters", vs |-> <<"false", "true">>],
+  [k |-> "datafusion.execution.parquet.force_filter_selections", vs |-> <<"false", "true">>],
+  [k |-> "datafusion.execution.parquet.enable_page_index", vs |-> B2],
+  [k |-> "datafusion.execution.parquet.pruning", vs |-> B2],
+  [k |-> "datafusion.execution.parquet.skip_metadata", vs |-> B2],
+  [k |-> "datafusion.execution.parquet.bloom_filter_on_read", vs |-> B2],
+  [k |-> "datafusion.execution.parquet.schema_force_view_types", vs |-> B2],
+  [k |-> "datafusion.execution.parquet.max_in_list_size", vs |-> <<"20", "1">>],
   [k |-> "datafusion.execution.target_partitions", vs |-> <<"1", "2", "3", "4", "5", "8">>],
   [k |-> "datafusion.execution.batch_size", vs |-> <<"8192", "1", "2", "3">>],
   [k |-> "datafusion.execution.coalesce_batches", vs |-> B2],
@@ -91,7 +108,7 @@ Opts == <<
 NO == Len(Opts)
 
 \* a configuration = one value index per option
-Cand(sd) == [i \in 1..NO |-> Rnd(Mix(Mix(sd, i), 13 * i + 1), Len(Opts[i].vs)) + 1]
+Cand(sd) == [i \in 1..NO |-> Rnd(MixS(MixS(sd, i), 13 * i + 1), Len(Opts[i].vs)) + 1]
 RECURSIVE SumPairs(_)
 SumPairs(i) == IF i > NO THEN 0
                ELSE SeqSum([j \in 1..(NO - i) |-> Len(Opts[i].vs) * Len(Opts[i + j].vs)]) + SumPairs(i + 1)
@@ -99,7 +116,7 @@ AllPairs == SumPairs(1)
 
 \* the first row is the default configuration (value index 1 of every option)
 DefaultRow == [i \in 1..NO |-> 1]
-Cands == <<DefaultRow>> \o [t \in 1..NCAND |-> Cand(Mix(CSEED, t))]
+Cands == <<DefaultRow>> \o [t \in 1..NCAND |-> Cand(MixS(CSEED, t))]
 NCFG == MAXCFG
 
 \* the specification's statement of C02: the configuration is not read
